@@ -3,6 +3,7 @@ package main
 // Call handling: builtins, trusted externals, contracts, inlining, havoc.
 
 import (
+	"regexp"
 	"fmt"
 	"go/token"
 	"go/types"
@@ -64,7 +65,7 @@ func (fr *Frame) callWith(st *State, instr ssa.Instruction, c *ssa.CallCommon, f
 		} else {
 			res = fr.defaultCall(st, sig, calleeName, strings.HasPrefix(namedPkg(recvT), modPath), full)
 		}
-		fr.afterCall(st, calleeName, res)
+		fr.afterCallA(st, calleeName, res, full)
 		return res
 	}
 	if fnv.Fn != nil {
@@ -80,12 +81,16 @@ func (fr *Frame) callWith(st *State, instr ssa.Instruction, c *ssa.CallCommon, f
 		if fr.declaredNoEffect(calleeName) {
 			u.callsNoEffect[calleeName] = true
 			u.note("call through function value %s in %s: declared noeffect (assumed not to modify the modelled heap), result unconstrained", valueDesc(c.Value), fr.fn)
+		} else if top := fr.topFrame(); top.fc != nil && matchAny(top.fc.FreshOnly, calleeName) {
+			u.callsNoEffect[calleeName] = true
+			u.note("call through function value %s in %s: declared freshonly (assumed to modify only objects allocated since %s was entered), result unconstrained", valueDesc(c.Value), fr.fn, top.fn)
+			u.havocFreshOnly(st, u.heapCur(top.entry, "$alloc"))
 		} else {
 			u.callsHavoc[calleeName] = true
 			u.havocAll(st)
 		}
 		res := resultVal(u, sig, fr.freshResults(sig, "dyn"))
-		fr.afterCall(st, calleeName, res)
+		fr.afterCallA(st, calleeName, res, args)
 		return res
 	}
 	calleeName = callee.String()
@@ -112,14 +117,16 @@ func (fr *Frame) callWith(st *State, instr ssa.Instruction, c *ssa.CallCommon, f
 		res = sp(fr, st, full, instr)
 	} else if fc := u.cx.contractFor(callee); fc != nil && !fc.Inline && !(fr.top && origin == fr.fn && false) {
 		u.callsContract[calleeName] = true
+		fr.callBind = fnv.Bind
 		res = fr.applyContract(st, fc, origin, origin.Signature, full, pos, calleeName, nil)
+		fr.callBind = nil
 	} else if fr.canInline(origin) {
 		u.callsInlined[calleeName] = true
 		res = fr.inline(st, origin, full, fnv.Bind, pos)
 	} else {
 		res = fr.defaultCall(st, sig, calleeName, inRepo(callee), full)
 	}
-	fr.afterCall(st, calleeName, res)
+	fr.afterCallA(st, calleeName, res, full)
 	return res
 }
 
@@ -141,6 +148,10 @@ func valueDesc(v ssa.Value) string {
 		if fa, ok := x.X.(*ssa.FieldAddr); ok {
 			st := fa.X.Type().Underlying().(*types.Pointer).Elem().Underlying().(*types.Struct)
 			return "field:" + st.Field(fa.Field).Name()
+		}
+		if ia, ok := x.X.(*ssa.IndexAddr); ok {
+			// element of a slice/array: named after the container (stable under renumbering of SSA registers)
+			return "elem:" + valueDesc(ia.X)
 		}
 	case *ssa.Parameter:
 		return "param:" + x.Name()
@@ -212,6 +223,15 @@ func (fr *Frame) inline(st *State, f *ssa.Function, args []Val, bind []Val, pos 
 	return resultVal(u, f.Signature, res)
 }
 
+func matchAny(pats []string, name string) bool {
+	for _, p := range pats {
+		if matchCallee(p, name) {
+			return true
+		}
+	}
+	return false
+}
+
 func (fr *Frame) declaredNoEffect(name string) bool {
 	for f := fr; f != nil; f = f.parent {
 		if f.fc != nil {
@@ -279,10 +299,15 @@ func (fr *Frame) atCall(st *State, name string, args []Val, pos token.Pos) {
 		}
 		t := env.trBool(c.E)
 		u.oblige(st, "at", fmt.Sprintf("%s/at:%s", top.fnLabel(), clauseName(c, i)), t, pos, c, "at call "+name+": "+c.Src)
+		// asserted here, hence available as a fact from here on (assert-then-assume)
+		u.assumeG(st, t)
 	}
 }
 
-func (fr *Frame) afterCall(st *State, name string, res Val) {
+func (fr *Frame) afterCall(st *State, name string, res Val) { fr.afterCallA(st, name, res, nil) }
+
+// afterCallA: the arguments of the call are visible to `after call` clauses as arg0.. (results as res0..).
+func (fr *Frame) afterCallA(st *State, name string, res Val, args []Val) {
 	u := fr.u
 	top := fr.topFrame()
 	if top.fc == nil {
@@ -299,6 +324,9 @@ func (fr *Frame) afterCall(st *State, name string, res Val) {
 		}
 		for k, r := range rs {
 			env.vars[fmt.Sprintf("res%d", k)] = r
+		}
+		for k, a := range args {
+			env.vars[fmt.Sprintf("arg%d", k)] = a
 		}
 		u.assumeG(st, env.trBool(c.E))
 		u.note("assumed about the result of %s in %s: %s", name, top.fn, c.Src)
@@ -412,6 +440,17 @@ func (fr *Frame) applyContract(st *State, fc *FuncContract, callee *ssa.Function
 	pre := st.clone()
 	env := u.contractEnv(fc, callee, sig, args, st, pre, recvT)
 	env.tpFrame = fr
+	if callee != nil && len(callee.FreeVars) > 0 {
+		// contract of a closure: its free variables are the values bound at the make-closure site
+		if len(fr.callBind) != len(callee.FreeVars) {
+			u.unsup("closure %s under contract called without known bindings", callee)
+		}
+		for i, fv := range callee.FreeVars {
+			b := fr.callBind[i]
+			b.Ty = fv.Type()
+			env.vars[fv.Name()] = b
+		}
+	}
 	for i, c := range fc.Requires {
 		t := env.trBool(c.E)
 		u.oblige(st, "pre", fmt.Sprintf("%s/pre:%s:%s", fr.topFrame().fnLabel(), shortName(name), clauseName(c, i)), t, pos, c, "precondition of "+name+": "+c.Src)
@@ -472,11 +511,18 @@ func (fr *Frame) applyContract(st *State, fc *FuncContract, callee *ssa.Function
 		u.assumeG(st, and(app(">", res[0].T, u.heapCur(pre, "$alloc")), app("<=", res[0].T, u.heapCur(st, "$alloc"))))
 	}
 	for _, c := range fc.Ensures {
+		if ghostRe.MatchString(c.Src) {
+			// a postcondition phrased over the callee's own call history (called/ret/count ghosts) has no meaning in
+			// the caller's history: it is proved for the callee but never assumed at call sites.
+			continue
+		}
 		t := env.trBool(c.E)
 		u.assumeG(st, t)
 	}
 	return resultVal(u, sig, res)
 }
+
+var ghostRe = regexp.MustCompile(`\b(called|ret|ret1|ret2|first|count|counttrue0|counttrue1)\("`)
 
 func shortName(n string) string {
 	if i := strings.LastIndex(n, "/"); i >= 0 {
@@ -826,6 +872,13 @@ func (fr *Frame) doAppend(st *State, c *ssa.CallCommon, args []Val) Val {
 			fresh = sto(fresh, fmt.Sprintf("(+ (sl_len %s) %d)", s.T, k), ek)
 		}
 		u.assume(eq(newRow, ite(fits, inPlace, fresh)))
+		// element-set view: elems(append(s, e...)) == elems(s) + {e...}
+		el := u.sliceElems(es)
+		set := app(el, oldRowS, app("sl_off", s.T), app("sl_len", s.T))
+		for k := 0; k < n; k++ {
+			set = sto(set, sel(tRow, app("ix", app("sl_off", t.T), fmt.Sprint(k))), "true")
+		}
+		u.assume(eq(app(el, newRow, app("sl_off", res), newLen), set))
 		u.heapStoreAt(st, h, resBase, newRow)
 		return Val{T: res, S: "Slice"}
 	}
@@ -837,10 +890,18 @@ func (fr *Frame) doAppend(st *State, c *ssa.CallCommon, args []Val) Val {
 		srcElem = app(f, t.T, fmt.Sprintf("(- %s (+ (sl_off %s) (sl_len %s)))", j, res, s.T))
 	} else {
 		tRow := sel(hc, app("sl_base", t.T))
-		srcElem = sel(tRow, fmt.Sprintf("(+ (sl_off %s) (- %s (+ (sl_off %s) (sl_len %s))))", t.T, j, res, s.T))
+		srcElem = sel(tRow, fmt.Sprintf("(ix (sl_off %s) (- %s (+ (sl_off %s) (sl_len %s))))", t.T, j, res, s.T))
+		if sl, ok := c.Args[1].(*ssa.Slice); ok && sl.Low != nil {
+			// t = y[lo:...]: address t's elements as elements of y (same cells; keeps quantified facts about y applicable)
+			if _, isSl := sl.X.Type().Underlying().(*types.Slice); isSl {
+				if y, lo := fr.get(sl.X), fr.get(sl.Low); y.T != "" && lo.T != "" {
+					srcElem = sel(tRow, fmt.Sprintf("(ix (sl_off %s) (+ %s (- %s (+ (sl_off %s) (sl_len %s)))))", y.T, lo.T, j, res, s.T))
+				}
+			}
+		}
 	}
 	// index j of the new row: positions [off, off+len(s)) come from s; [off+len(s), off+newLen) from t; others unchanged (in place) or arbitrary (fresh)
-	oldAt := sel(oldRowS, fmt.Sprintf("(+ (sl_off %s) (- %s (sl_off %s)))", s.T, j, res))
+	oldAt := sel(oldRowS, fmt.Sprintf("(ix (sl_off %s) (- %s (sl_off %s)))", s.T, j, res))
 	inS := fmt.Sprintf("(and (<= (sl_off %s) %s) (< %s (+ (sl_off %s) (sl_len %s))))", res, j, j, res, s.T)
 	inT := fmt.Sprintf("(and (<= (+ (sl_off %s) (sl_len %s)) %s) (< %s (+ (sl_off %s) %s)))", res, s.T, j, j, res, newLen)
 	u.assume(fmt.Sprintf("(forall ((%s Int)) (! (and (=> %s (= (select %s %s) %s)) (=> %s (= (select %s %s) %s)) (=> (and %s (not %s) (not %s)) (= (select %s %s) (select %s %s)))) :pattern ((select %s %s))))",
@@ -876,6 +937,20 @@ func (u *Unit) arrTake(es string) string {
 		asrt := "(Array Int " + es + ")"
 		u.enc.raw(name, fmt.Sprintf("(declare-fun %s (%s Int Int) %s)", name, asrt, asrt))
 		u.enc.axioms = append(u.enc.axioms, fmt.Sprintf("(forall ((a!t %s) (o!t Int) (n!t Int) (j!t Int)) (! (=> (and (<= 0 j!t) (< j!t n!t)) (= (select (%s a!t o!t n!t) j!t) (select a!t (ix o!t j!t)))) :pattern ((select (%s a!t o!t n!t) j!t))))", asrt, name, name))
+	}
+	return name
+}
+
+// sliceElems: slice_elems$ES(row, off, n) is the set of the elements in the window [off, off+n) of a backing array
+// (spec function elems(s)). Axioms: the empty window has no elements; every element of the window is a member.
+// append(s, e...) extends it (doAppend).
+func (u *Unit) sliceElems(es string) string {
+	name := q("slice_elems$" + es)
+	if !u.enc.declared[name] {
+		asrt := "(Array Int " + es + ")"
+		u.enc.raw(name, fmt.Sprintf("(declare-fun %s (%s Int Int) (Array %s Bool))", name, asrt, es))
+		u.enc.axioms = append(u.enc.axioms, fmt.Sprintf("(forall ((a!e %s) (o!e Int)) (! (= (%s a!e o!e 0) %s) :pattern ((%s a!e o!e 0))))", asrt, name, u.emptySet(es), name))
+		u.enc.axioms = append(u.enc.axioms, fmt.Sprintf("(forall ((a!e %s) (o!e Int) (n!e Int) (j!e Int)) (! (=> (and (<= 0 j!e) (< j!e n!e)) (select (%s a!e o!e n!e) (select a!e (ix o!e j!e)))) :pattern ((%s a!e o!e n!e) (select a!e (ix o!e j!e)))))", asrt, name, name))
 	}
 	return name
 }
